@@ -250,8 +250,9 @@ pub fn reference(line: &str, prev: Prev, mode: GameMode) -> Option<HitObject> {
     let y = pf32(f[1], 131072.0)? as i32 as f32;
     let pos = Pos::new(x, y);
     let start = pf(f[2], f64::from(i32::MAX))?;
-    let ty: i32 = f[3].parse().ok()?;
-    let sound = (f[4].parse::<i32>().ok()? & 0xFF) as u8;
+    // like every other integer field: white space around the number is tolerated
+    let ty: i32 = f[3].trim().parse().ok()?;
+    let sound = (f[4].trim().parse::<i32>().ok()? & 0xFF) as u8;
     let combo_off = (ty & 0x70) >> 4;
     let new_combo = ty & 4 != 0;
     let mut b = Bank::default();
@@ -294,7 +295,7 @@ pub fn reference(line: &str, prev: Prev, mode: GameMode) -> Option<HitObject> {
             let mut ns = vec![sound; nodes];
             if let Some(s) = f.get(8).filter(|s| !s.is_empty()) {
                 for (n, t) in ns.iter_mut().zip(s.split('|')) {
-                    *n = t.parse::<i32>().map(|v| (v & 0xFF) as u8).unwrap_or(0);
+                    *n = t.trim().parse::<i32>().map(|v| (v & 0xFF) as u8).unwrap_or(0);
                 }
             }
             let node_samples = nb.iter().zip(&ns).map(|(b, s)| samples(b, *s)).collect();
@@ -622,7 +623,7 @@ pub fn run(tier: Tier) -> i32 {
     bounds.insert("coordinate_classes".into(), json!({"values": coords.len(), "pairs": nc * nc, "shapes": 4}));
 
     // (4) node sound / bank lists against repeat counts
-    let node_sounds = ["", "2", "2|4", "2|4|8", "2|4|8|14", "x|2", "|", "256|1"];
+    let node_sounds = ["", "2", "2|4", "2|4|8", "2|4|8|14", "x|2", "|", "256|1", "2| 8", " 4 |2"];
     let node_banks = ["", "1:2", "1:2|3:1", "1:2|3:1|0:0", "1:2|x", "1|2", "1:2:3:4|0:0", "0:0|0:0|0:0|2:2"];
     let repeats = ["0", "1", "2", "3", "4", "9000", "9001", "-5"];
     let radices = [node_sounds.len() as u64, node_banks.len() as u64, repeats.len() as u64, 4];
